@@ -25,43 +25,51 @@ Section Notify.
     all: bool_hyps; done.
   Qed.
 
+  Lemma reach_inv_shape inputs ext tr s : run F f (init F inputs ext) tr = Some s -> inv_shape s.
+  Proof. apply run_invariant_all; [apply inv_shape_init|apply step_inv_shape]. Qed.
+
+  (* from here on: poll_next REPLACES the stored waker (the code, l.504) *)
+  Context (Hrep : F.(f_poll_next_replaces_waker) = true).
+
   Definition inv_notify (s : state) : Prop :=
-    (dropped s = false -> s.(notify) = true -> s.(pending) = [] /\ s.(closed) = false) /\
-    (cons_waiting s = true -> s.(notify) = true \/ cons_wake_inflight s = true).
+    (dropped s = false -> is_Some s.(notify) -> s.(pending) = [] /\ s.(closed) = false) /\
+    (cons_waiting s = true -> s.(notify) = Some s.(clatest) \/ cons_wake_inflight s = true).
 
   Lemma inv_notify_init inputs ext : inv_notify (init F inputs ext).
-  Proof. split; cbn; done. Qed.
+  Proof. split; cbn; [by intros _ [? [=]]|done]. Qed.
 
   Lemma step_inv_notify s a s' : inv_notify s -> step F f s a = Some s' -> inv_notify s'.
   Proof.
     intros (Ha & Hb) Hs. step_cases Hs.
     all: unfold inv_notify, dropped, cons_waiting, cons_wake_inflight in *; cbn in *.
+    all: rewrite ?Hrep in *; cbn in *.
     all: split.
     all: try done; try exact Ha; try exact Hb.
     all: try (by left); try (by right).
-    all: try (intros H; destruct (Hb H) as [->|?]; [by right|done]).
-    all: try (destruct cst; done).
+    all: try (by intros _ [? [=]]).
+    all: try (intros H; destruct (Hb H) as [->|?]; [right; cbn; apply Nat.eqb_refl|done]).
     all: try (destruct cst as [|[]| | | | |]; done).
-    all: intros _ Hn; destruct (Ha eq_refl Hn); done.
+    all: try (intros H; destruct (Hb H) as [?|?]; [by left|done]).
+    all: try (intros _ Hn; destruct (Ha eq_refl Hn); done).
+    all: intros H; destruct (Hb H) as [?|?]; [by left|congruence].
   Qed.
 
   Lemma reach_inv_notify inputs ext tr s : run F f (init F inputs ext) tr = Some s -> inv_notify s.
   Proof. apply run_invariant_all; [apply inv_notify_init|apply step_inv_notify]. Qed.
-  Lemma reach_inv_shape inputs ext tr s : run F f (init F inputs ext) tr = Some s -> inv_shape s.
-  Proof. apply run_invariant_all; [apply inv_shape_init|apply step_inv_shape]. Qed.
 
-  (* C12.2 *)
+  (* C12.2, for the LATEST waker *)
   Theorem consumer_always_woken inputs ext tr s :
     run F f (init F inputs ext) tr = Some s ->
     (* the consumer returned Pending (or is returning it) and there is something to read *)
     (s.(cst) = CPend \/ s.(cst) = CRun true) -> (s.(pending) <> [] \/ s.(closed) = true) ->
-    (* then its waker is not sitting in `notify`; it has been called, or it has been taken and is about to be called *)
-    s.(notify) = false /\ (s.(cwoken) = true \/ cons_wake_inflight s = true).
+    (* then no waker is sitting in `notify`; the waker of the most recent Pending poll has been called, or it has been
+       taken and is about to be called *)
+    s.(notify) = None /\ (s.(cwoken) = true \/ cons_wake_inflight s = true).
   Proof.
     intros Hr Hc Hp. destruct (reach_inv_notify _ _ _ _ Hr) as (Ha & Hb).
     assert (Hd : dropped s = false) by (unfold dropped; destruct Hc as [-> | ->]; done).
-    assert (Hn : notify s = false).
-    { destruct (notify s) eqn:E; [|done]. destruct (Ha Hd eq_refl) as [H1 H2]. destruct Hp; congruence. }
+    assert (Hn : notify s = None).
+    { destruct (notify s) eqn:E; [|done]. destruct (Ha Hd ltac:(eauto)) as [H1 H2]. destruct Hp; congruence. }
     split; [done|].
     destruct (cwoken s) eqn:Ew; [by left|right].
     assert (Hw : cons_waiting s = true) by (unfold cons_waiting; destruct Hc as [-> | ->]; rewrite Ew; done).
